@@ -130,13 +130,16 @@ AKeyMapCfg ==
 \* cc-learning (which drops reports near the centre) and mapping keys; a note key to have something sounding
 AActCfg ==
   [BaseCfg EXCEPT
-     !.actions = [KEY_F9 |-> "cc_learning", KEY_F12 |-> "mapping_up"],
+     !.actions = [KEY_F9 |-> "cc_learning", KEY_F12 |-> "mapping_up", KEY_ESC |-> "panic"],
      !.maps = << [name |-> "M1", keys |-> [KEY_A |-> [n |-> 60, o |-> 0]],
                   axes |-> [ABS_Z |-> [AxisDflt EXCEPT !.type = "action", !.act = "panic", !.dzn = 0],
                             ABS_HAT0X |-> [AxisDflt EXCEPT !.type = "action", !.act = "octave_up", !.actNeg = "panic",
                                                            !.bidi = TRUE, !.dzn = 0]]],
                  [name |-> "M2", keys |-> [KEY_A |-> [n |-> 62, o |-> 0]],
-                  axes |-> [ABS_Z |-> [AxisDflt EXCEPT !.cc = 5, !.dzn = 0]]] >>,
+                  axes |-> [ABS_Z |-> [AxisDflt EXCEPT !.cc = 5, !.dzn = 0],
+                            \* an emulated key on ANOTHER channel than the one a panic silences
+                            ABS_HAT0X |-> [AxisDflt EXCEPT !.type = "key", !.note = 64, !.noteNeg = 65, !.off = 1, !.offNeg = 2,
+                                                           !.bidi = TRUE, !.dzn = 0]]] >>,
      !.axinfo = [ABS_Z |-> [min |-> 0, max |-> 4], ABS_HAT0X |-> [min |-> -1, max |-> 1]]]
 
 \* C06 (model level): one axis of each transmitting kind on small ranges
